@@ -64,6 +64,14 @@ CHECKS.append({
 })
 
 _claimed = {c["property_id"] for c in CHECKS}
+CHECKS.append({
+    "property_id": "C09",
+    "text": "Coq model of format_subexpression (precedence, associativity, sides, the prefix-operator separation rule, parenthesised integer literals before a member access) and of the expression parser's level structure (expr_leaf, expr_p1 .. expr_p15, casts decided by the set of type names as the type checker decides them). Precedences, associativity ranges, operator spellings, the side each operand is printed on, the operators each parser level accepts and the level chain are regenerated from formatter.rs / expressions.rs / lexer.rs on every run and must satisfy the table obligations (printed spelling = parsed token text for every operator, level chain, parenthesis rule). The model's printed text and the tree it reads back are compared with the real printer and the real preprocessor + parser on every (outer operator, inner operator, side) combination, sampled or exhaustive operator triples, literals of every kind at extreme values and random trees to depth 6; every repository shader source and every tree the HLSL exporters build for them is printed, parsed again and compared node by node after resolving the parser's ambiguity nodes.",
+    "design_ref": "DESIGN.md §4 C09",
+    "note": "Trusted: Coq kernel, translator, extraction + drivers. Statements, declarators, types, sizeof, braced initialisers and template arguments are exercised on the implementation only. Float digit generation is Rust's Display. Known findings: `a < b > (c)` read as explicit template arguments; NaN and the most negative 64-bit literal have no spelling.",
+    "technique": "Coq proof over a printer/parser model + regenerated tables + model/implementation correspondence",
+})
+
 NOT_APPLICABLE = [
     {"property_id": p, "reason": "not yet claimed: model/theorems under construction (see DESIGN.md build order); no check registered until it passes on the unchanged tree"}
     for p in ALL if p not in _claimed
